@@ -9,6 +9,7 @@ import Driver.Ops.C08
 import Driver.Ops.C09
 import Driver.Ops.C10
 import Driver.Ops.C12
+import Driver.Ops.C13
 import Driver.Ops.C14
 import Driver.Ops.C15
 import Driver.Ops.C17
@@ -29,6 +30,7 @@ def allOps : OpTable :=
   ++ opsC09
   ++ opsC10
   ++ opsC12
+  ++ opsC13
   ++ opsC14
   ++ opsC15
   ++ opsC17
